@@ -486,7 +486,7 @@ Proof.
       unfold zlen. cbn [tok_str length]. lia.
     + cbn [length] in Hi. destruct (IH (p + 1) i ltac:(lia)) as (k & Hk & E1 & E2).
       exists (S k). split; [cbn [length]; lia|]. rewrite !bnd_S.
-      unfold zlen at 1 3. cbn [tok_str length]. lia.
+      change (zlen (tok_str (TText c))) with 1. lia.
   - apply (Htag (p + Z.of_nat (length (tok_str (TOpen n))))); reflexivity.
   - apply (Htag (p + Z.of_nat (length (tok_str (TClose n))))); reflexivity.
   - apply (Htag (p + Z.of_nat (length (tok_str (TEmpty n))))); reflexivity.
